@@ -136,6 +136,7 @@ const (
 	slugUnequal   = "unequal-shard-length"
 	slugForeign   = "foreign-shard"
 	slugTwin      = "consistent-corruption-undetected"
+	slugDegraded  = "degraded-read-unchecked-survivor"
 	slugNilMeta   = "missing-plus-corrupt-panic"
 	slugPadByte   = "pad-byte-unprotected"
 	slugMetaNoFix = "metadata-damage-not-repaired" // C26
@@ -143,14 +144,23 @@ const (
 
 func (c Case) hitsShort() bool { return c.count(func(d Dmg) bool { return d.Kind == TruncLow }) > 0 }
 func (c Case) hitsUnequal() bool {
-	return c.count(c.unequalLen) > 0
+	return c.count(func(d Dmg) bool { return d.Kind == TruncHigh }) > 0
 }
 func (c Case) hitsForeign() bool {
-	return c.count(func(d Dmg) bool { return d.Kind == Foreign && c.foreignSameLen() }) > 0
+	return c.count(func(d Dmg) bool { return d.Kind == Foreign }) > 0
 }
+
+// anyUnequalLen: some present shard has another payload length (reedsolomon's ErrShardSize
+// pre-empts everything else on the read path).
+func (c Case) anyUnequalLen() bool { return c.count(c.unequalLen) > 0 }
+
+// hitsNilMeta: an absent shard, and after filling it in the set still does not verify, so
+// the checksum pass runs over the absent shard's nil metadata. (Over-approximation: also
+// taken when fewer than d non-empty shards remain, where the read fails cleanly.)
 func (c Case) hitsNilMeta() bool {
 	a := c.count(absent)
-	return a >= 1 && c.count(c.payloadAltered) >= 1 && c.N()-a >= c.D && !c.hitsShort() && !c.hitsUnequal()
+	return a >= 1 && c.count(c.payloadAltered) >= 1 && c.N()-a >= c.D && !c.hitsShort() && !c.anyUnequalLen() &&
+		!c.hitsConsistentWrong()
 }
 
 // otherContent is the blob a Foreign shard is taken from (same rule in the worker).
@@ -176,12 +186,14 @@ func rsEncode(enc reedsolomon.Encoder, blob []byte) [][]byte {
 	return sh
 }
 
-// hitsConsistentWrong is the signature of the finding "parity verifies, checksums are never
-// looked at": the payloads of the shards that are present form (alone, or after filling in
-// the absent ones) a valid codeword that is NOT the stored blob's. Computed with the
-// reedsolomon library directly (generator-side classification only, never the oracle).
+// hitsConsistentWrong is the signature of the findings "parity verifies, checksums are never
+// looked at": the payloads of the shards that are present form (alone: slugTwin, or after
+// filling in the absent ones: slugDegraded) a valid codeword that is NOT the stored blob's.
+// Computed with the reedsolomon library directly (generator-side classification only, never
+// the oracle). A shard cut to its metadata keeps the set from verifying, so it is not in
+// this class.
 func (c Case) hitsConsistentWrong() bool {
-	if c.Size == 0 || c.hitsShort() || c.hitsUnequal() {
+	if c.Size == 0 || c.hitsShort() || c.anyUnequalLen() || c.count(func(d Dmg) bool { return d.Kind == TruncMeta }) > 0 {
 		return false
 	}
 	if c.Twin == nil && c.count(func(d Dmg) bool { return d.Kind == FlipPayload || d.Kind == Foreign }) == 0 {
@@ -209,7 +221,7 @@ func (c Case) hitsConsistentWrong() bool {
 	present := 0
 	for i, dm := range c.Damage {
 		switch dm.Kind {
-		case Missing, WFail, TruncMeta:
+		case Missing, WFail:
 			cur[i] = nil
 		case FlipPayload:
 			cur[i][dm.Off] ^= byte(dm.Mask)
@@ -237,10 +249,28 @@ func (c Case) hitsConsistentWrong() bool {
 	return false
 }
 
-func (c Case) hitsPadByte() bool {
-	i := c.firstPresent()
-	return i >= 0 && c.Damage[i].Kind == FlipMeta && c.Damage[i].Off == 0
+func (c Case) consistentWrongSlug() string {
+	if c.count(absent) > 0 {
+		return slugDegraded
+	}
+	return slugTwin
 }
+
+// padByteShards: shards whose pad-count byte is flipped and which may be the one the decoder
+// takes the pad count from: the first shard with metadata today, the first shard that passes
+// its checksum after a fix of the panics - so every lower shard is damaged in some way.
+func (c Case) padByteShards() (l []int) {
+	for i, d := range c.Damage {
+		if d.Kind == FlipMeta && d.Off == 0 {
+			l = append(l, i)
+		}
+		if d.Kind == Intact {
+			break
+		}
+	}
+	return
+}
+func (c Case) hitsPadByte() bool { return len(c.padByteShards()) > 0 }
 func (c Case) hitsMetaOnly() bool {
 	return c.count(func(d Dmg) bool { return d.Kind == FlipMeta }) > 0
 }
@@ -278,7 +308,6 @@ func normalise(c *Case, rec *stats.Rec) {
 				c.Damage[i] = Dmg{Kind: TruncMeta}
 			}
 		}
-		c.OtherSize = c.Size
 	}
 	if c.hitsForeign() && stats.Known("C25", slugForeign) {
 		rec.Exclude(slugForeign)
@@ -288,8 +317,8 @@ func normalise(c *Case, rec *stats.Rec) {
 			}
 		}
 	}
-	if stats.Known("C25", slugTwin) && c.hitsConsistentWrong() {
-		rec.Exclude(slugTwin)
+	if slug := c.consistentWrongSlug(); stats.Known("C25", slug) && c.hitsConsistentWrong() {
+		rec.Exclude(slug)
 		c.Twin = nil
 		for i, d := range c.Damage {
 			if d.Kind == FlipPayload || d.Kind == Foreign {
@@ -319,7 +348,9 @@ func normalise(c *Case, rec *stats.Rec) {
 	}
 	if c.hitsPadByte() && stats.Known("C25", slugPadByte) {
 		rec.Exclude(slugPadByte)
-		c.Damage[c.firstPresent()].Off = 1
+		for _, i := range c.padByteShards() {
+			c.Damage[i].Off = 1
+		}
 	}
 }
 
